@@ -92,6 +92,8 @@ def facts_dir(tier, repo=None, log=sys.stderr):
     """Return the directory with the fact files for the current tree, extracting if needed."""
     repo = repo or REPO
     ensure_driver()
+    if os.environ.get("VERIF_FACTS_DIR"):        # scratch lanes of bin/batch.py only: facts extracted by lane_extract()
+        return os.environ["VERIF_FACTS_DIR"], "lane", True
     os.makedirs(CACHE, exist_ok=True)
     key, nfiles = tree_key(repo)
     fdir = os.path.join(CACHE, "facts", "%s-%s" % (tier, key))
@@ -170,3 +172,31 @@ def _prune(root, keep, maxn=6):
     ents.sort(reverse=True)
     for _, p in ents[maxn:]:
         shutil.rmtree(p, ignore_errors=True)
+
+
+def lane_extract(repo, fdir, target):
+    """Incremental extraction for a *fixed* scratch path (bin/batch.py): cargo's own freshness decides which member crates
+    are re-checked; the fact files of the others stay from the previous run of the same lane (their inputs are unchanged).
+    Never used by a registered check."""
+    ensure_driver()
+    os.makedirs(fdir, exist_ok=True)
+    pkgs = _member_packages(repo)
+    env = dict(os.environ)
+    env.update({
+        "LD_LIBRARY_PATH": _nightly_sysroot() + "/lib",
+        "RUSTFLAGS": "-Zmir-opt-level=0 -Awarnings",
+        "RUSTC_WORKSPACE_WRAPPER": DRIVER,
+        "MIRFACTS_OUT": fdir,
+        "CARGO_TARGET_DIR": target,
+        "CARGO_NET_OFFLINE": "true",
+    })
+    env.pop("RUSTC_WRAPPER", None)
+    cmd = ["cargo", "+nightly", "check", "--offline", "-q"]
+    have = set(p["name"] for p in pkgs)
+    for p in CORE_PACKAGES:
+        if p in have:
+            cmd += ["-p", p]
+    r = subprocess.run(cmd, cwd=repo, env=env, capture_output=True, text=True)
+    if r.returncode != 0:
+        raise EngineError("extraction build failed:\n" + r.stderr[-3000:])
+    return fdir
